@@ -23,5 +23,10 @@ def spec():
         Row('P0', 'E3', None, actions=['h3']),
         Row('Q0', 'E4', 'Q1', actions=['q01']),
         Row('Q1', 'E4', 'Q0'),
+        # the event that leaves the deferring state is also offered to the sibling region, where a guard may
+        # reject it: combined result TRUE|GUARD_REJECT of the step that must re-offer the deferred events
+        Row('Q0', 'E0', 'Q1', guard=1, actions=['q0e0']),
+        Row('Q1', 'E0', None, guard=2, actions=['q1e0']),
+        Row('Q1', 'E1', 'Q0', guard=3),
     ])
     return {'name': 'M11', 'events': ['E0', 'E1', 'E2', 'E3', 'E4'], 'flags': [], 'root': root}
